@@ -1,3 +1,4 @@
+pub mod compose;
 pub mod gen;
 pub mod geom;
 pub mod props;
